@@ -54,8 +54,9 @@ def values_of(name, seed, full8=False):
     if n == 8 and full8:
         return list(range(-128, 128)) if signed else list(range(256))
     vs = [0, 1, 2, (1 << (n - 1)) - 1, 1 << (n - 1), (1 << n) - 2, (1 << n) - 1]
-    rnd = random.Random(seed * 1000003 + n)
-    vs += [rnd.getrandbits(n), rnd.getrandbits(n)]
+    for k in range(3):          # fixed pseudo-random extras (independent of VERIF_SEED)
+        rnd = random.Random(k * 1000003 + n)
+        vs += [rnd.getrandbits(n), rnd.getrandbits(n)]
     out = []
     for v in vs:
         v = reduce_to(v, n, signed)
